@@ -147,6 +147,8 @@ def gen_case(rng, kind=None):
     psiN = round(rng.uniform(0.5, 0.99), 3)
     cs2 = round(rng.uniform(0.2, 1 / 3), 4)
     cb2 = round(rng.uniform(0.2, cs2), 4)
+    if rng.random() < 0.5:                       # both orderings of the sound speeds
+        cb2 = round(rng.uniform(cs2, 1 / 3), 4)
     alN = round((1 - psiN) / 3 + 10.0 ** rng.uniform(-3, -0.5), 5)
     return dict(kind="template", alN=alN, psiN=psiN, cb2=cb2, cs2=cs2,
                 Tn=unit * round(rng.uniform(0.5, 2.0), 3))
@@ -350,7 +352,7 @@ GENERIC_KEY = {"energy-flux": "flux-mismatch", "momentum-flux": "flux-mismatch",
                "fallback": "template-fallback-exact-exists"}
 
 
-def failure_key(h, vw, kind, fallback, success=True):
+def failure_key(h, vw, kind, fallback, success=True, hybr_ok=True):
     """key of a failure class for known_findings.json. Two recorded findings live in the
     corner vMin == vBracketLow (=1e-3), vw < 1.5 vBracketLow:
       slow-wall-unconverged-accepted  hybr stalls (status 5) and the absolute acceptance rule
@@ -360,11 +362,16 @@ def failure_key(h, vw, kind, fallback, success=True):
     The same symptom anywhere else gets the generic key and is a new violation."""
     corner = h.vMin == h.vBracketLow and vw < 1.5 * h.vBracketLow
     if corner and fallback and kind in ("energy-flux", "momentum-flux", "fallback", "c1",
-                                        "c2"):
+                                        "c2", "range"):
         return "slow-wall-template-fallback"
     if corner and not fallback and kind in ("energy-flux", "momentum-flux", "c1", "c2",
                                             "not-converged"):
         return "slow-wall-unconverged-accepted"
+    if success and not hybr_ok and not fallback and kind in ("energy-flux", "momentum-flux",
+                                                             "c1", "c2"):
+        # same mechanism as slow-wall-unconverged-accepted, but outside that corner: hybr
+        # reports failure, sum(fun^2) < 1e-6 (absolute) lets the result through
+        return "unconverged-accepted-absolute-threshold"
     if not success and not fallback and kind in ("energy-flux", "momentum-flux", "c1", "c2",
                                                   "not-converged", "range"):
         # findMatching never looks at self.success: the result of a 2x2 solve that did not
@@ -378,6 +385,9 @@ RECORDED = [   # inputs of the recorded findings, replayed first on every run
     (dict(kind="2step", abrok=0.2, asym=0.1, musq=0.4, Tn0=0.9, unit=1.0), 0.001),
     (dict(kind="2step", abrok=0.261, asym=0.148, musq=0.419, Tn0=0.73, unit=25.0),
      0.0010011),
+    # hybr fails (status 2) but the absolute acceptance rule lets it through, vw = 0.0117
+    (dict(kind="template", alN=0.03961, psiN=0.885, cb2=0.2544, cs2=0.2362, Tn=1.913),
+     0.011661719584618011),
     # unconverged 2x2 solve returned as a matching (hybrid 0.03% below vJ)
     (dict(kind="template", alN=0.19354, psiN=0.571, cb2=0.202, cs2=0.3301, Tn=138.8),
      0.6952983303589946),
@@ -501,8 +511,10 @@ def check_point(ctx, case, th, h, vw, stats=None):
                 if ex is not None:
                     dev = max(abs(a - b) / max(abs(b), 1e-300) for a, b in zip(
                         (vp, Tp, Tm), (ex[0], ex[2], ex[3])))
-                    d = h.rtol + h.atol / min(ex[0], ex[2], ex[3]) + h.rtol / max(
-                        abs(ex[2] / h.Tnucl - 1), 1e-12)
+                    # the shooting residual is known to ~rtol, so v+ is known to ~rtol
+                    # ABSOLUTE (rtol/vp relative) and further limited by the heating
+                    d = h.rtol + h.atol / min(ex[0], ex[2], ex[3]) + h.rtol / ex[0] + \
+                        h.rtol / max(abs(ex[2] / h.Tnucl - 1), 1e-12)
                     tolx = K_FLUX * d / ((1 - ex[0] ** 2) * (1 - ex[1] ** 2))
                     rec["fallback_dev"] = dev
                     if dev > tolx:
@@ -515,7 +527,10 @@ def check_point(ctx, case, th, h, vw, stats=None):
             bad = ("Hydrodynamics.success is False after findMatching(vw=%.6g) inside "
                    "[vMin, 0.99]" % vw, "not-converged")
     if bad:
-        bad = (bad[0], failure_key(h, vw, bad[1], spy.fallback, bool(success)))
+        _, lastsol = spy.last("root", "matching")
+        hybr_ok = lastsol is None or bool(lastsol.success)
+        label["hybr_status"] = None if lastsol is None else int(lastsol.status)
+        bad = (bad[0], failure_key(h, vw, bad[1], spy.fallback, bool(success), hybr_ok))
     if bad:
         label.update(what_fails=bad[0], fluxes=[e1, e2, m1, m2], boundaries=[c1, c2],
                      fallback=spy.fallback, success=bool(success))
@@ -764,7 +779,19 @@ def run(ctx):
             continue
         ctx.count("model", case, bucket="%s rtol=%g atol=%g" % (case["kind"], case["rtol"],
                                                               case["atol"]))
-        for vw in wall_velocities(rng, h, nvw):
+        vws = wall_velocities(rng, h, nvw)
+        # the deflagration/hybrid switch is at vw = cs(T-), not at cs(Tn): when the sound
+        # speed behind the wall depends on temperature, probe between the two
+        try:
+            cbn = math.sqrt(float(th.csqLowT(h.Tnucl)))
+            if h.vMin < cbn < h.vJ:
+                Tm_ = float(h.findMatching(cbn)[3])
+                cbm = math.sqrt(max(float(th.csqLowT(Tm_)), 0.0))
+                if abs(cbm - cbn) > 1e-6 and h.vMin < cbm < h.vJ:
+                    vws += [0.5 * (cbn + cbm), cbn + 0.9 * (cbm - cbn)]
+        except Exception:
+            pass
+        for vw in vws:
             try:
                 check_point(ctx, case, th, h, vw, stats)
                 if case["kind"] == "template":
